@@ -3,7 +3,7 @@ import ast
 
 from sa.cfg import cfg_of
 from sa.program import norm, own_nodes, const_str
-from sa.util import cfg_node_of, derives_from, enclosing_loops, self_calls_in
+from sa.util import cfg_node_of, derives_from, enclosing_loops, guards_at, self_calls_in
 from . import shared
 from .roles import CONFIG_ATTR, VIEWS, roles
 
@@ -63,6 +63,34 @@ def run(ctx):
             ok = True
     c.ob("R7", ok, rh, "shallow-restores-direct-child", "shallow history restores the remembered direct child of the history node's parent" if ok else
          "the shallow-history branch no longer filters the remembered states to direct children of the history node's parent", rh.node)
+    # the filtered list is what the shallow branch returns (its first choice): computing it and returning the whole record is deep history
+    for x in shallow:
+        par_ = __import__("sa.util", fromlist=["parents"]).parents(rh).get(id(x))
+        name = par_.targets[0].id if isinstance(par_, ast.Assign) and isinstance(par_.targets[0], ast.Name) else None
+        rets = [r_ for r_ in own_nodes(rh.node) if isinstance(r_, ast.Return) and r_.value is not None and name and name in {n_.id for n_ in ast.walk(r_.value) if isinstance(n_, ast.Name)}]
+        first = [r_ for r_ in rets if (isinstance(r_.value, ast.Name) and r_.value.id == name) or
+                 (isinstance(r_.value, ast.BoolOp) and isinstance(r_.value.op, ast.Or) and isinstance(r_.value.values[0], ast.Name) and r_.value.values[0].id == name)]
+        if isinstance(par_, ast.Return):
+            first = [par_]
+        c.ob("R7", bool(first), rh, "shallow-returns-the-filtered-list", "the shallow branch returns the direct children it selected" if first else
+             f"the list of remembered direct children ('{name}') is computed but is not what the shallow branch returns: shallow history restores the whole "
+             f"remembered sub-configuration, i.e. behaves like deep history", x)
+    # ---- R9 an unvisited history state uses its declared default target first --------------------
+    dflt = [a for a in own_nodes(rh.node) if isinstance(a, ast.Assign) and isinstance(a.targets[0], ast.Name) and norm(a.value) == f"{hparam}.target_str"]
+    if c.expect("R9", "read of the history state's default target", len(dflt), 1, rh,
+                "_resolve_history_target no longer reads the history state's declared default target: an unvisited history state ignores it"):
+        dv = dflt[0].targets[0].id
+        res_vars = {a.targets[0].id for a in own_nodes(rh.node) if isinstance(a, ast.Assign) and isinstance(a.targets[0], ast.Name)
+                    and isinstance(a.value, ast.Call) and "_resolve_state_by_target" in norm(a.value.func) and dv in {n_.id for n_ in ast.walk(a.value) if isinstance(n_, ast.Name)}}
+        ok = False
+        for r_ in own_nodes(rh.node):
+            if isinstance(r_, ast.Return) and r_.value is not None and res_vars & {n_.id for n_ in ast.walk(r_.value) if isinstance(n_, ast.Name)}:
+                at = guards_at(rh, r_)
+                if any(isinstance(a, ast.Name) and a.id == dv and pol for a, pol in at) and not any(isinstance(a, ast.Constant) for a, pol in at):
+                    ok = True
+        c.ob("R9", ok, rh, "default-target-honoured", "an unvisited history state with a declared target enters that target" if ok else
+             "no return of the resolved default target remains reachable under 'the history state declares a target': an unvisited history state "
+             "falls through to the parent's initial child and the declared default is ignored", dflt[0])
     # ---- R8 the record keeps every active descendant (shallow AND deep need it) -----------------
     rec_f = p.method("BaseInterpreter", "_record_history")
     stores = [x for x in own_nodes(rec_f.node) if isinstance(x, ast.Assign) and isinstance(x.targets[0], ast.Subscript) and "_history" in norm(x.targets[0].value)]
